@@ -54,6 +54,12 @@ structure Opts where
   seg : Nat := 8388608
   deriving Repr, DecidableEq, Inhabited
 
+/-- what the model keeps of the options: index mode and segment size. `RWMode`, `StartFileLoadingMode`
+and `SyncEnable` are dropped when a database is opened — nothing after `Open` can depend on them (C19);
+that the implementation behaves like this one model under every combination of them is what the
+correspondence suites `db-opts*` check. -/
+def Opts.core (o : Opts) : Opts := { mode := o.mode, seg := o.seg, rw := 0, startRw := 0, sync := false }
+
 structure Rec where
   bucket : Bytes
   key : Bytes
@@ -367,7 +373,7 @@ def openDB (opt : Opts) (fs : List File) : State × Outcome Unit :=
   let maxFid := (fs.map (·.fid)).foldl max 0
   let fs' := fileEnsure fs maxFid
   let act := (fileGet? fs' maxFid).getD { fid := maxFid, recs := [] }
-  let s : State := { opt := opt, files := fs', activeFid := maxFid, hintFid := maxFid, writeOff := fileEnd act,
+  let s : State := { opt := opt.core, files := fs', activeFid := maxFid, hintFid := maxFid, writeOff := fileEnd act,
                      actualSize := fileEnd act, opened := true }
   if fs.isEmpty then (s, .ok ())
   -- a record that does not read back (crc error) is fatal in getActiveFileWriteOff / parseDataFiles
